@@ -167,7 +167,10 @@ def execute(case):
         want = {"bool": ["object"], "int": ["float"], "float": ["float"], "str": ["string", "ustr"], "date": ["date", "datetime"],
                 "datetime": ["datetime"], "datetime_ns": ["datetime"], "timedelta": ["timedelta"] if flavour == "numpy" else ["object", "timedelta"], "bytes": ["object"], "object": ["object"]}[kind]
         if all(marks):
-            want = want + ["object", "float", "datetime", "date"]
+            # nothing but missing values: no numbers, dates or strings to infer a type from. Spelled None, the statement's
+            # "None otherwise" applies (an object vector of None, which replace_na can fill with a value of any type);
+            # spelled NaN / NaT, the missing value of that spelling's own type is as good
+            want = ["object"] if case["na_token"] == "None" else want + ["object", "float", "datetime", "date"]
         if fam not in want:
             res.violate(f"construct:wrong-na-type:{kind}:{flavour}", f"{ctx}: dtype {arr.dtype} (family {fam}), expected one of {want}")
         res.count("na-type-checked")
@@ -302,6 +305,16 @@ def execute(case):
             exp_r = [cells[keep[0]] if m else c for c, m in zip(cells, exp_na)]
             if rc != exp_r and not canon.cells_eq(rc, exp_r):
                 res.violate("replace_na:wrong-elements", f"{ctx}: replace_na({fill!r}) gave {canon.short(rc)} expected {canon.short(exp_r)}")
+            pass
+        if n and all(marks) and not dtype and case["na_token"] == "None" and container != "ndarray_object":
+            # an all-None vector is of no particular type: replace_na must be able to put any value there
+            for fill3 in ("n/a", 7, datetime.date(2020, 2, 29)):
+                r3 = np.asarray(v.replace_na(fill3)).tolist()
+                if r3 != [fill3] * n:
+                    res.violate("replace_na:all-missing-vector-cannot-take-value", f"{ctx}: replace_na({fill3!r}) gave {canon.short(r3)}")
+                    break
+            res.count("replace-all-missing-checked")
+        if keep and judged_values:
             if v.is_string() and any(exp_na):
                 # a fill value longer than anything in the vector (heap-allocated string in a vector of short ones, and the other way round)
                 for fill2 in ("z" * 17 + "\u00f6", "q"):
